@@ -4,6 +4,8 @@ PROP = {
           'cgroup v1/v2, hierarchy-valid old and new assignments incl. unlimited, fresh or pre-populated ResourceCache); every updater call of '
           'LeveledUpdateBatch is wrapped and the whole tree is snapshotted after it (= every prefix of the write sequence = every crash point). '
           'non-trivial = depth >= 2 and (some node shrinks while another grows, or a cpuset shifts); distinct = FNV-64 of the full case. '
+          'leveledRounds: 2-4 successive LeveledUpdateBatch rounds on one executor inside the force-update window (the ResourceCache decides what is skipped), '
+          'rounds may return to an earlier assignment; non-trivial = a node shrinks and later grows, or a round reverts. '
           'beCPUSetRewrite: BE cgroup tree (root / 0-3 pods / 0-2 containers) with hierarchy-valid cpusets, 1-3 successive applyCPUSetWithNonePolicy rounds '
           'through an executor wrapper that forwards one write at a time and snapshots the tree after each; non-trivial = tree has pods and a round shifts '
           '(or rounds both shrink and grow).'),
@@ -14,7 +16,8 @@ PROP = {
  'units': [{'name': 'executor',
             'pkg': 'pkg/koordlet/resourceexecutor',
             'files': ['C12/c12_executor_test.go'],
-            'tests': [{'run': 'TestVerifC12LeveledUpdate', 'quick': 1500, 'thorough': 6000}]},
+            'tests': [{'run': 'TestVerifC12LeveledUpdate', 'quick': 1500, 'thorough': 6000},
+                      {'run': 'TestVerifC12LeveledRounds', 'quick': 1500, 'thorough': 6000}]},
            {'name': 'cpusuppress',
             'pkg': 'pkg/koordlet/qosmanager/plugins/cpusuppress',
             'files': ['C12/c12_cpuset_test.go'],
